@@ -32,7 +32,8 @@ ASSUMPTIONS = [
     'the expected record of an invocation comes from vf/progmodel.Model.once',
 ]
 REQUIRED_COUNTERS = ['cases', 'invocations_judged', 'records_judged',
-                     'diagnoser_calls_judged', 'reinvocations_justified']
+                     'diagnoser_calls_judged', 'reinvocations_justified',
+                     'monitored_cases']
 EXHAUSTIVE = {'quick': True, 'thorough': True}
 PLAN = {
     'quick': {'workers': 16, 'budget_s': 60, 'sampled_per_worker': 500,
@@ -57,8 +58,10 @@ def setup():
   pm.htf()
 
 
-def make(pos, seq, limit, opt, run_if, meas, diag):
+def make(pos, seq, limit, opt, run_if, meas, diag, mon=False):
   beh = {'r': list(seq) if len(seq) > 1 else seq[0]}
+  if mon:
+    beh['mon'] = 1
   opts = {}
   cfg = {}
   if limit:
@@ -96,7 +99,8 @@ def make(pos, seq, limit, opt, run_if, meas, diag):
   else:
     prog = [['G', [], [ok('pre')], [put, ok('td_tail')]], ok('tail')]
   return {'prog': prog, 'cfg': cfg,
-          'meta': [pos, list(seq), limit, opt, run_if, meas, diag]}
+          'meta': [pos, list(seq), limit, opt, run_if, meas, diag] + (
+              ['monitored'] if mon else [])}
 
 
 def seqs_core():
@@ -122,6 +126,14 @@ def enumerated(tier):
         for opt in OPTS:
           for pos in (POSITIONS if tier == 'thorough' else ['first', 'in_subtest']):
             yield make(pos, seq, None, opt, None, meas, diag)
+  # the phase under test is wrapped by @monitors (a sampling thread runs next
+  # to the body): results, exceptions and time-outs map as without it
+  for seq in list(seqs_core())[:len(CODES)] + [['R', 'C'], ['R', 'R', 'R'], ['F', 'C'],
+                                                ['T', 'C'], ['X', 'C']]:
+    for opt in OPTS:
+      for pos in ('first', 'in_subtest', 'in_teardown'):
+        for meas, diag in ((None, None), ('fail', 'pass'), ('pass', 'failure')):
+          yield make(pos, seq, None, opt, None, meas, diag, mon=True)
   for run_if in RUN_IFS:
     for opt in OPTS:
       for pos in POSITIONS:
@@ -138,17 +150,18 @@ def sampled(tier, rng):
         rng.choice(CODES) for _ in range(rng.randint(1, 4))]
     yield make(rng.choice(POSITIONS), seq, rng.choice(LIMITS), rng.choice(OPTS),
                rng.choice(RUN_IFS + [None, None]), rng.choice(MEAS),
-               rng.choice(DIAGS))
+               rng.choice(DIAGS), mon=rng.random() < .15)
 
 
 def run_case(case):
   prog, cfg = case['prog'], case['cfg']
-  pos, seq, limit, opt, run_if, meas, diag = case['meta']
+  pos, seq, limit, opt, run_if, meas, diag = case['meta'][:7]
   real = pm.run_real(prog, cfg)
   model = pm.run_model(prog, cfg)
   viol = []
   c = {'cases': 1, 'invocations_judged': 0, 'records_judged': 0,
-       'diagnoser_calls_judged': 0, 'reinvocations_justified': 0}
+       'diagnoser_calls_judged': 0, 'reinvocations_justified': 0,
+       'monitored_cases': len(case['meta']) - 7}
 
   def bad(mech, **d):
     if len(viol) < 4:
